@@ -67,6 +67,10 @@ var paramSets = [][][2]string{
 	{{"T", "other_table"}, {"s", "'it''s'"}},
 	// many entries: map growth, iteration order, anything sized for "a few parameters"
 	{{"a", "$1"}, {"b", "$2"}, {"c", "$3"}, {"k", "$4"}, {"lim", "$5"}, {"m", "$6"}, {"n", "$7"}, {"s", "$8"}, {"x", "$9"}, {"y", "$10"}, {"z", "$11"}, {"total", "$12"}, {"cnt", "$13"}, {"State", "$14"}, {"EventType", "$15"}, {"p16", "$16"}, {"p17", "$17"}, {"p18", "$18"}},
+	// names that differ only in case
+	{{"LIMIT", "20"}, {"Limit", "10"}},
+	{{"Kind", "{k:Int32}"}, {"cutoff", "3"}, {"CUTOFF", "4"}},
+	{{"X", "$2"}, {"x", "$1"}, {"N", "7"}, {"n", "8"}},
 	// the same names as above with other values (a map changed without changing its size)
 	{{"x", "$2"}},
 	{{"n", "7"}, {"s", "'other'"}},
@@ -158,6 +162,14 @@ var curated = []string{
 	"T | where a == 1 | extend x = now(1) | where iif(a) | summarize count(1) by k",
 	"T | join (U | where not(1, 2)) on k | where tolower() == 'x' | project toupper(a, b)",
 	"let x = 1; T | where isnotnull() | where x == 1 | extend y = countif() | where $left.a == 1",
+	// names the compiler generates itself, written by the user
+	"T | as __subquery1 | where x > 1 | count", "__subquery0 | where a > 1 | count", "T | as __subquery0 | project a | as __subquery1 | summarize count() by a | where a > 1",
+	"T | join (__subquery0 | where b > 1) on k | project `$left`, `$right`", "let __subquery0 = 1; T | where a == __subquery0 | count | where a > 0",
+	// signed and otherwise unusual row counts
+	"T | take -1", "T | limit -n", "T | top -3 by x", "T | take -(2)", "T | take - 5 | count", "T | top +3 by x", "T | take x", "T | take 'five'", "T | top 1e3 by a",
+	// names that differ only in case (parameters, lets, references in a third spelling)
+	"T | take limit", "T | where x > cutoff and y == Kind | take Limit", "let Cutoff = 1; let CUTOFF = 2; T | where x > cutoff",
+	"let KIND = 7; T | where y == kind", "let x = 1; let X = 2; T | where a == x and b == X and c == `x`", "t | join (T) on K, k",
 	// mistyped names: whatever ranks the known names by closeness meets ties here
 	"T | ta", "T | tat 5", "T | tak 5", "T | wher a == 1", "T | sor by a", "T | tp 3 by a", "T | coun", "T | a", "T | jion (U) on k", "T | ectend x = 1 | projct x",
 	"T | join kind=iner (U) on k", "T | join kind=leftoute (U) on k", "T | join kind=in (U) on k",
